@@ -12,6 +12,14 @@ open Settlus
 theorem roundStart_is_the_code (h p : Nat) (hh : h < two64 / 2) (hp : p * 2 < two64) (hp0 : 0 < p) :
     Gen.roundStart (h : Int) p = roundStart h p := roundStart_translated h p hh hp hp0
 
+/-- **every vote period the chain accepts - by a governance proposal or at genesis - keeps the round arithmetic in range**: positive,
+and two periods fit an int64 (before the repair of F26 a period of 2^63 was accepted and the end-blocker divided by zero) -/
+theorem accepted_vote_period_in_range (vp : Nat) (thr frac : Int) (w m : Nat) (h : oparamsKeyValid vp thr frac w m = true) :
+    0 < vp ∧ vp * 2 < 2 ^ 63 := by
+  unfold oparamsKeyValid maxVotePeriod at h
+  simp only [Bool.and_eq_true, bne_iff_ne, ne_eq, decide_eq_true_eq] at h
+  omega
+
 /-- rounds are 2·p blocks long: the round start is the height rounded down to a multiple of 2p -/
 theorem round_grid (h p : Nat) : roundStart h p = h - h % (p * 2) ∧ (p * 2) ∣ roundStart h p ∧ roundStart h p ≤ h :=
   ⟨rfl, roundStart_dvd h p, roundStart_le h p⟩
